@@ -69,3 +69,33 @@ func VerifC11History() {
 	}
 	verifrt.Reach("end")
 }
+
+// VerifC11LockDiscipline: lemma R5 – on every path of every history the shared state of the
+// filter (map, list, and every field written after construction) is only touched while the
+// filter's mutex is held, the mutex is released on return, and TestAndSet never re-enters it.
+// With R1/R2 (sequential semantics of the critical section) this gives a linearizable
+// test-and-set for concurrent callers.
+func VerifC11LockDiscipline() {
+	verifrt.Ideal()
+	ttl := int64(verifrt.IntRange("ttl_seconds", 1, 4))
+	f, err := New(time.Duration(ttl) * time.Second)
+	verifrt.Assume(err == nil)
+	verifrt.Guard(f, &f.Mutex)
+	verifrt.OnBlocked(func() {
+		verifrt.Assert(false, "TestAndSet returns with the mutex released and never re-enters it (the next caller is not locked out)")
+	})
+	now := int64(1700000000)
+	k := verifrt.Param("ops")
+	for i := 0; i < k; i++ {
+		v := verifrt.Pick("value", 0, verifrt.Param("values")-1)
+		now += int64(verifrt.IntRange("time_step", -2, 5))
+		f.TestAndSet(time.Unix(now, 0), []byte{byte(v), 0x55})
+		// the mutex is free again: a second caller can enter (the model reports a self-deadlock
+		// or an unlock of an unlocked mutex otherwise)
+		f.Lock()
+		n := f.fifo.Len()
+		f.Unlock()
+		verifrt.Assert(n >= 1, "the submitted value is remembered")
+	}
+	verifrt.Reach("end")
+}
